@@ -28,6 +28,12 @@ def run(tier, seed):
         tasks.insert(0, lambda n=n, nsym=nsym, w=w: c04.pippenger_harness(rep, "serial64", chk, "checked build: serial Pippenger n=%d (w=%d), %d symbolic scalar(s)" % (n, w, nsym), "vp_g_pippenger", n, nsym,
                      "%d points, %d with all radix-2^%d digit vectors (all scalars), the others 0; overflow-checks and debug assertions on" % (n, nsym, w)))
     for t in c04.vartime_harnesses(rep, "serial64", chk, "quick"): tasks.append(t)
+    # Part 3: the vectorised (AVX2) field code: kernel pre-/post-conditions on coefficient bounds (checks/c01v.py, release IR: vector ops wrap
+    # silently, so the bound IS the no-overflow condition) and their re-establishment along the vector point formulas and along arbitrary
+    # chains of them (checks/c03v.py: inductive headroom step)
+    from checks import c01v, c03v
+    tasks += c01v.harnesses(rep, build.ir("simd", "O3"), tier)
+    tasks += c03v.harnesses(rep, build.ir("simd", "O0"))
     run_tasks(tasks, rep)
     for it in rep.items: it["harness"] = "chk:" + it["harness"]
     rep.explanation = "panic-edge infeasibility + functional equivalence on the overflow-checked/debug-assert IR"
